@@ -12,6 +12,11 @@ QUAL = {"Option": "std::option::Option", "Vec": "std::vec::Vec", "HashSet": "std
         "Result": "std::result::Result", "String": "std::string::String"}
 
 
+# path-qualified spellings of mapped source names (the name a mapping is looked up by is the last segment)
+MAPPED_QUAL = {"PathBuf": "std::path::PathBuf", "DateTime<Utc>": "chrono::DateTime<Utc>", "UserId": "crate::UserId", "Flag": "crate::flags::Flag",
+               "Uuid": "uuid::Uuid"}
+
+
 def q(name):
     return QUAL.get(name, name) if QUALIFIED_SPELLING else name
 
@@ -82,7 +87,7 @@ def spell(t, sp):
     if k == "named":
         return ("crate::" + t["n"]) if QUALIFIED_SPELLING else t["n"]
     if k == "mapped":
-        return t["n"]
+        return MAPPED_QUAL.get(t["n"], "ext::" + t["n"]) if QUALIFIED_SPELLING else t["n"]
     a = spell(t["a"], sp) if "a" in t else None
     if k == "opt":
         return "%s<%s>" % (q("Option"), args([a]))
